@@ -84,11 +84,18 @@ Proof.
   destruct fix1_applied; reflexivity.
 Qed.
 
-Lemma lookup_site_sel_other : forall sid, sid <> 14%Z -> lookup_site_sel sid = lookup_site sid.
+Lemma site13_fixed_safe : safe_prog 1 site_13_fixed = true.
+Proof. vm_compute. reflexivity. Qed.
+
+Lemma lookup_site_sel_safe : forall sid np site,
+  lookup_site_sel sid = Some (np, site) -> sid <> 14%Z -> safe_prog np site = true.
 Proof.
-  intros sid H. unfold lookup_site_sel.
-  assert (E : Z.eqb sid 14 = false) by (apply Z.eqb_neq; auto). rewrite E.
-  rewrite andb_false_r. reflexivity.
+  intros sid np site H Hne. unfold lookup_site_sel in H.
+  assert (E : Z.eqb sid 14 = false) by (apply Z.eqb_neq; auto). rewrite E in H.
+  rewrite andb_false_r in H.
+  destruct (fix1_applied && Z.eqb sid 13) eqn:E13.
+  - inversion H; subst. exact site13_fixed_safe.
+  - eapply lookup_site_safe; eauto.
 Qed.
 
 Theorem model_implies_spec_partial : forall c,
@@ -103,10 +110,9 @@ Proof.
     destruct (zlist_eqb (k_log_before c) (k_log_after c)); simpl in *; try discriminate. exact H.
   - destruct (Z.eqb (k_kind c) 1) eqn:E1; auto.
     destruct (Z.eqb (k_kind c) 2) eqn:E2; auto.
-    rewrite lookup_site_sel_other in H by auto.
-    destruct (lookup_site (k_site c)) as [[n p]|] eqn:El; [|discriminate].
+    destruct (lookup_site_sel (k_site c)) as [[n p]|] eqn:El; [|discriminate].
     apply andb_true_iff in H. destruct H as [H1 H2]. apply Nat.eqb_eq in H1. apply prog_eqb_eq in H2.
-    subst. eapply lookup_site_safe; eauto.
+    subst. eapply lookup_site_sel_safe; eauto.
 Qed.
 
 (* the exclusion is needed for the code as it is: a genotype-encoding call on which the model (which has the
